@@ -139,6 +139,9 @@ class NPModel:
     # -- creation
     @staticmethod
     def array(x, dtype=None, **kw):
+        from . import zarr as _z
+        if isinstance(x, _z.ZList):
+            return x
         try:
             a = _np.array(x, **kw)
         except (ValueError, TypeError):
@@ -454,7 +457,7 @@ class _Typed:
 def check_signature(fn_name, sig, args):
     """layout/rank/dtype type-state: the call must have a matching compiled definition"""
     for k, (t, a) in enumerate(zip(sig.args, args)):
-        if not isinstance(t, Ty) or isinstance(t, TupleTy):
+        if not isinstance(t, Ty) or isinstance(t, TupleTy) or t.name in ("optional", "Dict", "List"):
             continue
         if t.ndim == 0:
             if isinstance(a, _np.ndarray) and a.ndim > 0:
